@@ -19,14 +19,18 @@
 (* real class as it is.  The contract (module DynamicGraph) is what the        *)
 (* answers are judged by: RefinesContract below.                               *)
 (*                                                                             *)
-(* Two statements of the code are switchable, because TLC refutes them:        *)
-(*   EraseAllEqual  removeQueue() calls multiset::erase(value), which removes  *)
+(* Two statements are switchable.  FALSE = the code as it is now; TRUE = the    *)
+(* pinned code before the repairs dd4cdccd9 / 56f0c279a, kept as model         *)
+(* mutations that TLC must refute (and whose counterexample histories are      *)
+(* re-executed on the real class as regression scenarios):                     *)
+(*   EraseAllEqual  removeQueue() called multiset::erase(value), which removes *)
 (*                  EVERY queued node whose key compares equal, not only the   *)
 (*                  node meant; the others keep isInQ = true and are lost      *)
-(*   EmptyMeansInf  computeShortestPath() returns infinity (and no path) when  *)
-(*                  the queue is empty on entry, i.e. when there is nothing    *)
+(*                  (wrong costs both ways, and a parent cycle on which the    *)
+(*                  path extraction never ends)                                *)
+(*   EmptyMeansInf  computeShortestPath() returned infinity (and no path) when *)
+(*                  the queue was empty on entry, i.e. when there was nothing  *)
 (*                  left to repair                                             *)
-(* TRUE = as coded.                                                            *)
 EXTENDS DynamicGraph
 
 CONSTANTS EraseAllEqual, EmptyMeansInf, MaxLen
@@ -42,7 +46,8 @@ HN(v) == IF v = Target THEN 0 ELSE H(v)       \* target_ is constructed with h =
 KeyLess(a, b) == IF a[1] # b[1] THEN a[1] < b[1] ELSE a[2] < b[2]
 
 St == [g |-> g, r |-> r, par |-> par, flag |-> flag, key |-> key, q |-> q, hang |-> FALSE,
-       over |-> 0, under |-> 0]     \* ghosts: heads expanded as over- / underconsistent by this search
+       over |-> 0, under |-> 0,     \* ghosts: heads expanded as over- / underconsistent by this search
+       rekey |-> FALSE]             \* ghost: the loop condition changed the key of the QUEUED target
 CalcKey(st, v) == <<Min2(st.g[v], Plus(st.r[v], HN(v))), Min2(st.g[v], st.r[v])>>
 
 (* ---------------------------- queue utilities ---------------------------- *)
@@ -114,7 +119,9 @@ Expand(st, G, outs, ins, u) ==
 RECURSIVE Loop(_, _, _, _, _)
 Loop(st, G, outs, ins, fuel) ==
     IF st.q = <<>> THEN st                                   \* if (queue_.empty()) break;
-    ELSE LET st0 == [st EXCEPT !.key[Target] = CalcKey(st, Target)]     \* target_->calculateKey()
+    ELSE LET st0 == [st EXCEPT !.key[Target] = CalcKey(st, Target),     \* target_->calculateKey()
+                               !.rekey = @ \/ (st.key[Target] # CalcKey(st, Target)
+                                               /\ \E i \in 1..Len(st.q) : st.q[i] = Target)]
              top == Head(st0.q)
          IN  IF ~(KeyLess(st0.key[top], st0.key[Target]) \/ st0.r[Target] # st0.g[Target]) THEN st0
              ELSE IF fuel = 0 THEN [st0 EXCEPT !.hang = TRUE]
@@ -138,7 +145,7 @@ ComputeResult(st) ==
 Install(st) == /\ g' = st.g /\ r' = st.r /\ par' = st.par /\ flag' = st.flag
                /\ key' = st.key /\ q' = st.q
 Drop(s, x) == SelectSeq(s, LAMBDA y : y # x)
-NoRes == [fresh |-> FALSE, cost |-> 0, path |-> <<>>, hang |-> FALSE, over |-> 0, under |-> 0]
+NoRes == [fresh |-> FALSE, cost |-> 0, path |-> <<>>, hang |-> FALSE, over |-> 0, under |-> 0, rekey |-> FALSE]
 
 Init == /\ CInit
         /\ g = [v \in VN |-> INF] /\ r = [v \in VN |-> INF] /\ par = [v \in VN |-> -1]
@@ -184,7 +191,7 @@ ICompute ==
     /\ LET cr == ComputeResult(St)
        IN  /\ Install(cr.st)
            /\ res' = [fresh |-> TRUE, cost |-> cr.cost, path |-> cr.path, hang |-> cr.st.hang,
-                    over |-> cr.st.over, under |-> cr.st.under]
+                    over |-> cr.st.over, under |-> cr.st.under, rekey |-> cr.st.rekey]
     /\ UNCHANGED <<inc, inI>>
 
 Bounded == MaxLen = 0 \/ len < MaxLen
@@ -237,6 +244,10 @@ SearchPostcondition ==
         /\ g[Target] = r[Target]
         /\ q # <<>> => ~KeyLess(key[q[1]], CalcKey(St, Target))
 
+(* The loop condition calls calculateKey() on the target, which overwrites the stored key the    *)
+(* multiset is ordered by.  Harmless as long as a queued target already carries its current key: *)
+TargetKeyStableInQueue == ~res.rekey
+
 (* reachability probes (vacuity gates): each of these is expected to be VIOLATED *)
 ProbeNoOverconsistentHead == res.over = 0
 ProbeNoUnderconsistentHead == res.under = 0
@@ -244,6 +255,6 @@ ProbeNoMixedSearch == ~(res.over > 0 /\ res.under > 0)
 ProbeNeverUnreachable == ~(res.fresh /\ res.cost = INF /\ Cardinality(Arcs(wt)) > 0)
 ProbeNoTieInQueue == \A i \in 1..Len(q) - 1 : key[q[i]] # key[q[i + 1]]
 
-LView == <<nv, wt, up, g, r, par, flag, key, q, inc, inI, res.fresh, res.cost, res.path, res.hang, len>>
+LView == <<nv, wt, up, g, r, par, flag, key, q, inc, inI, res.fresh, res.cost, res.path, res.hang, res.rekey, len>>
 LViewProbe == <<nv, wt, up, g, r, par, flag, key, q, inc, inI, res, len>>
 ==============================================================================
